@@ -427,7 +427,14 @@ def ga_builtin(it, obj, name, args, kw):
             n = len(cols[k].v)
         return GA(obj.cls, DF(cols, n or 0), n or 0, dict(obj.meta))
     if name == "as_series":
-        return args[0] if isinstance(args[0], Vec) else Vec(list(it.iterate(args[0])))
+        # pd.Series(arraylike, index=self.data.index): the values, positionally, under the table's own labels
+        a0 = args[0] if isinstance(args[0], Vec) else Vec(list(it.iterate(args[0])))
+        if a0.fresh and obj.data.index != "range":
+            # pd.Series(<Series>, index=...) re-indexes by label: a fresh 0..n-1 Series meets other labels
+            raise Raised("IndexMisalignment", "as_series(<Series with a fresh 0..n-1 index>) on a table whose index is not known to be 0..n-1: the values are re-indexed by label")
+        if a0.fresh or a0.aligned:
+            a0 = a0.view()
+        return ext_call(it, "pd.Series", [a0], {"index": value_attr(it, obj.data, "index")})
     if name == "__len__":
         return builtin(it, "len")(obj)
     if name == "add_columns":
@@ -822,6 +829,13 @@ def store_subscript(it, obj, k, v, aug=False):
         if isinstance(k, Vec):
             newv = bcast(v, len(obj.v))
             obj.v = [nv if m is True else ov for m, ov, nv in zip(k.v, obj.v, newv)]
+        elif isinstance(k, int) and not isinstance(k, bool) and obj.labels is not None and (obj.aligned or obj.fresh) and len(obj.labels) == len(obj.v):
+            # a Series with literal integer labels: `ser[k] = v` writes the row labelled k (and appends a new row when no such label exists)
+            if k in obj.labels:
+                obj.v[obj.labels.index(k)] = v
+            else:
+                obj.labels = list(obj.labels) + [k]
+                obj.v.append(v)
         elif isinstance(k, int) and not isinstance(k, bool):
             obj.v[k] = v
         elif isinstance(k, Term) and k.is_const():
